@@ -13,6 +13,10 @@ Fixpoint tabs (n : nat) : string := match n with O => "" | S k => (tab ++ tabs k
 
 (* the writers' common safename: quote unless [A-Za-z0-9_]* *)
 Definition w_safename (s : string) : string := if str_forallb is_safechar s then s else quote s.
+(* clafer_writer.safename: also quotes the words the writer itself emits as keywords *)
+Definition clafer_keywords : list string := ["abstract"; "xor"; "or"; "mux"; "not"].
+Definition cl_safename (s : string) : string :=
+  if existsb (String.eqb s) clafer_keywords then quote s else w_safename s.
 
 (* =============================================================================== SPLOT (SXFM) *)
 Inductive sxf := SxF (name : string) (items : list sxitem)
@@ -307,10 +311,10 @@ Definition clafer_type (v : aval) : string :=
 Fixpoint clafer_tree (p : option feature) (f : feature) : clf :=
   match f with
   | Feature i rs =>
-      Clf (clafer_group f) (w_safename (f_name i))
+      Clf (clafer_group f) (cl_safename (f_name i))
           (negb (Nat.eqb (List.length (f_attrs i)) 0))
           (feat_is_optional p f)
-          (map (fun a => (w_safename (a_name a), clafer_value (a_default a))) (f_attrs i))
+          (map (fun a => (cl_safename (a_name a), clafer_value (a_default a))) (f_attrs i))
           (flat_map (fun r => match r with Relation _ _ cs => map (clafer_tree (Some f)) cs end) rs)
   end.
 
@@ -342,7 +346,7 @@ Fixpoint clafer_node (n : node) : result cexpr :=
                  | None => Err KeyError
                  end
           end end
-      | _ => Ok (CxVar (w_safename (data_str d)))
+      | _ => Ok (CxVar (cl_safename (data_str d)))
       end
   end.
 
@@ -350,13 +354,13 @@ Definition clafer_attrdecls (m : fm) : list (string * string) :=
   let all := flat_map (fun f => map (fun a => (a_name a, clafer_type (a_default a))) (f_attrs (info f)))
                       (get_features m) in
   let d := fold_left (fun acc kv => dict_set acc (fst kv) (VStr (snd kv))) all [] in
-  map (fun kv => (w_safename (fst kv), match snd kv with VStr s => s | _ => "" end)) d.
+  map (fun kv => (cl_safename (fst kv), match snd kv with VStr s => s | _ => "" end)) d.
 
 Definition clafer_write (m : fm) : result cdoc :=
   match mapM (fun c => clafer_node (c_ast c)) (ctcs m) with
   | Err e => Err e
   | Ok cs => Ok {| cd_attrdecls := clafer_attrdecls m; cd_root := clafer_tree None (root m); cd_ctcs := cs;
-                   cd_instance_of := w_safename (name (root m)) |}
+                   cd_instance_of := cl_safename (name (root m)) |}
   end.
 
 (* ---- Clafer's semantics on the feature hierarchy: the identifiers are the (safe-named) feature names ---- *)
